@@ -71,12 +71,31 @@ def initial_objects(scenario, init_circ, pnu=3, tmpl_loss=False):
 def snapshot(c):
     """observable state of a circuit (C08): mode count, unitary, heralds, input size"""
     try:
-        u = c.U_full
-        ub = (u.shape, np.round(u, 12).tobytes())
+        ub = c.U_full.copy()
     except Exception as e:  # compile error is part of the observable state
-        ub = ("ERR", type(e).__name__)
+        ub = "ERR " + type(e).__name__
     h = c.heralds
-    return (c.n_modes, c.input_modes, tuple(sorted(h["input"].items())), tuple(sorted(h["output"].items())), ub)
+    return Snap((c.n_modes, c.input_modes, tuple(sorted(h["input"].items())), tuple(sorted(h["output"].items()))), ub)
+
+
+class Snap:
+    """observable state; equality is numerical (1e-9) on the matrix, exact on the rest"""
+
+    def __init__(self, disc, u):
+        self.disc = disc
+        self.u = u
+
+    def __eq__(self, other):
+        if not isinstance(other, Snap) or self.disc != other.disc:
+            return False
+        if isinstance(self.u, str) or isinstance(other.u, str):
+            return isinstance(self.u, str) and isinstance(other.u, str) and self.u == other.u
+        return self.u.shape == other.u.shape and bool(np.abs(self.u - other.u).max(initial=0.0) <= TOL)
+
+    def __ne__(self, other):
+        return not self.__eq__(other)
+
+    __hash__ = None
 
 
 def user_positions(c):
@@ -174,6 +193,12 @@ def apply_event(objs, ev):
         objs[t] = objs[a[0]] + objs[a[1]]
     elif name == "copy":
         objs[t] = objs[a[0]].copy()
+    elif name == "probeall":
+        c = objs[t]
+        for m in range(c.n_modes - len(c._internal_modes)):
+            c.ps(m, phase((2 * (m + 1) + 1) % 8))
+    elif name == "edit":
+        objs[t].ps(0, phase(2))
     elif name == "unpack":
         objs[t].unpack_groups()
     elif name == "compress":
@@ -268,7 +293,9 @@ def dump_worker(st, ctx):
     prog = st["prog"]
     circ = st["circ"]
     semv = st.get("sem")
-    res = {"prog": prog, "findings": [], "drift": None, "calib": 0.0, "op": st.get("op")}
+    res = {"prog": prog, "findings": [], "drift": None, "calib": 0.0, "op": st.get("op"), "ctx": ctx,
+           "init": ({"kind": "tmpl", "pnu": ctx.get("pnu", 3), "loss": ctx.get("tmpl_loss", False)} if ctx["scenario"] == "tmpl"
+                    else {"kind": "sizes", "sizes": [circ[0]["nu"]]})}
     objs = initial_objects(ctx["scenario"], circ, ctx.get("pnu", 3), ctx.get("tmpl_loss", False))
     exp_sem = None
     if ctx.get("numeric") and semv is not None:
@@ -295,3 +322,17 @@ def dump_worker(st, ctx):
     except Drift as d:
         res["drift"] = str(d)
     return res
+
+
+# ---------------------------------------------------------------- abstract records of the scenario objects
+def template_record(n, loss):
+    ops = [("ps", (i,), i) for i in range(1, n + 1)]
+    ops += [("bs", (i, i + 1), (1, "Rx" if i % 2 == 1 else "H")) for i in range(1, n)]
+    if loss:
+        ops.append(("loss", (1,), 1))
+    return {"nu": n, "anc": (), "hord": (), "ops": tuple(ops)}
+
+
+def parent_record(n):
+    ops = [("ps", (1,), 3)] + [("bs", (i, i + 1), (1, "Rx")) for i in range(1, n)]
+    return {"nu": n, "anc": (), "hord": (), "ops": tuple(ops)}
